@@ -20,6 +20,7 @@ each reported.
 """
 import hashlib
 import random
+import os
 import time
 
 from harness import framework
@@ -166,9 +167,17 @@ def trace_sig(t, bad, l):
             "obs_err": bad["obs"]["err"], "invalid_close": any(e["a"] == "peerclose" and e["args"][1] == "invalid" for e in t["ev"][:l])}
 
 
+def _mc(ctx, *a, **kw):
+    """ctx.mc, skippable with WS_DEV_SKIP_MC=1 (development only: seeded-edit runs, where the
+    specification-level model checking is unaffected by the edit)."""
+    if os.environ.get("WS_DEV_SKIP_MC") == "1":
+        return None
+    return ctx.mc(*a, **kw)
+
+
 def run(ctx):
     t0 = time.time()
-    ctx.mc("ws", "MC_WsClose", "MC_WsClose.cfg", overrides=ctx.pick({"MaxMsgs": 1}, {"MaxMsgs": 2}),
+    _mc(ctx, "ws", "MC_WsClose", "MC_WsClose.cfg", overrides=ctx.pick({"MaxMsgs": 1}, {"MaxMsgs": 2}),
            required_actions=["LocalClose", "AppWrite", "MessageArrives", "PongArrives", "PeerCloseFrame", "PeerDisconnect",
                              "AsyncOnMessageReturns", "Advance"])
     ctx._phase("mc", t0)
